@@ -1,4 +1,5 @@
 import Jwt.Lemmas.Verify
+import Jwt.Lemmas.Decisions
 import Jwt.Checker
 import Jwt.SetGet
 import Jwt.Builder
@@ -90,5 +91,20 @@ theorem C14_generate (env : Env) (b : Builder) :
 example : (Checker.new).error = false ∧ (Checker.new).msg = none := by decide
 example : ({ Checker.new with error := true, msg := some .claims } : Checker).msg.isSome = true := rfl
 example : (({ Checker.new with error := true, msg := some .claims } : Checker).errorClear).error = false := rfl
+
+/-- **Every refusal of the two admission functions comes with a message, in the source** (translated
+`__setkey_check`, both compilations, and `__verify_config_post`): the function has called
+`jwt_write_error` exactly on the paths on which it returns 1 (a non-NULL object given), and it returns
+nothing but 0 or 1. -/
+theorem C14_admission_messages (side : Side) (alg : Alg) (key : Option KeyItem) (ka : Alg) (kp : Bool)
+    (cfg : Config) (jalg : Alg) (n : Nat) (claimsFail : Bool) :
+    ((setkeyCheckGen side alg key ka kp).2 = true ↔ (setkeyCheckGen side alg key ka kp).1 = 1) ∧
+    ((setkeyCheckGen side alg key ka kp).1 = 0 ∨ (setkeyCheckGen side alg key ka kp).1 = 1) ∧
+    (let r := Generated.verifyConfigPost claimsFail cfg.key.isNone n cfg.alg (cfg.key.elim ka (·.alg)) jalg
+     (r.2 = true ↔ r.1 = 1) ∧ (r.1 = 0 ∨ r.1 = 1)) := by
+  refine ⟨(setkeyCheck_generated side alg key ka kp).2.2, (setkeyCheck_generated side alg key ka kp).2.1, ?_⟩
+  cases claimsFail
+  · exact ⟨(configPost_generated cfg jalg n ka).2.2, (configPost_generated cfg jalg n ka).2.1⟩
+  · simp [configPost_claims_first]
 
 end Jwt.Props.C14
